@@ -167,6 +167,14 @@ def _run_lines(binary, lines, tag):
     d = os.path.join(BUILD, "cases")
     os.makedirs(d, exist_ok=True)
     nsh = min(NPROC, max(1, len(lines) // 50))
+    # balance the load: expensive cases come in runs, so deal them out in a fixed pseudo-random order
+    order = list(range(len(lines)))
+    st = 0x9E3779B97F4A7C15
+    for i in range(len(order) - 1, 0, -1):
+        st = (st * 6364136223846793005 + 1442695040888963407) & ((1 << 64) - 1)
+        j = (st >> 33) % (i + 1)
+        order[i], order[j] = order[j], order[i]
+    lines = [lines[k] for k in order]
     shards = [lines[i::nsh] for i in range(nsh)]
     paths = []
     for i, sh_lines in enumerate(shards):
@@ -183,7 +191,7 @@ def _run_lines(binary, lines, tag):
         if len(o) != len(shards[i]):
             raise RuntimeError("%s: %d answers for %d cases" % (binary, len(o), len(shards[i])))
         for j, l in enumerate(o):
-            res[i + j * nsh] = l
+            res[order[i + j * nsh]] = l
     return res
 
 
